@@ -1,6 +1,762 @@
-//! Monitor for C37 (see /verif/DESIGN.md §5 C37).
-use vcommon::Args;
+//! Monitor for C37 "Treasury factors stay valid and GT buyback payouts are proportional"
+//! (see /verif/DESIGN.md §5 C37).
+//!
+//! Full flow through the real treasury and store programs in hostsvm: `initialize_config`,
+//! `initialize_treasury_vault_config`, `set_treasury_vault_config`, `insert_token_to_treasury_vault`,
+//! `toggle_token_flag`, `set_gt_factor` / `set_buyback_factor`, `prepare_gt_exchange_vault`,
+//! `prepare_gt_bank`, `claim_fees`, `deposit_to_treasury_vault` (the instruction that funds the bank),
+//! `request_gt_exchange`, `confirm_gt_buyback`, `sync_gt_bank_v2`, `complete_gt_exchange` in random order.
+use crate::world::{
+    exchange::{OrderKind, OrderReq},
+    gt::GtParams,
+    treasury::Treasury,
+    World, UNIT,
+};
+use anchor_lang::prelude::Pubkey;
+use hostsvm::{token, TxError};
+use std::collections::BTreeMap;
+use vcommon::{json, monitor::run_shards, num_bigint::BigInt, serde_json::Value, Args, Monitor, Rng};
 
-pub fn run(_args: &Args) -> Option<i32> {
-    None
+const E18: u128 = 1_000_000_000_000_000_000;
+
+struct Base {
+    w: World,
+    t: Treasury,
+    users: Vec<Pubkey>,
+    market: usize,
+    /// Real (non-synthetic) tokens usable as treasury tokens: indices into `w.tokens`.
+    real: Vec<usize>,
+    all_tokens: Vec<usize>,
+}
+
+/// USD price (18 decimals) per whole token.
+fn price_of(name: &str) -> u128 {
+    match name {
+        "BTC" | "WBTC" => 60_000 * E18,
+        "SOL" => 150 * E18,
+        "USDC" => E18,
+        "BONK" => E18 / 50_000,
+        _ => E18,
+    }
+}
+
+fn refresh_prices(w: &mut World, tokens: &[usize], rng: Option<&mut Rng>) -> bool {
+    let mut ok = true;
+    let mut rng = rng;
+    for &i in tokens {
+        let p = price_of(&w.tokens[i].name);
+        // Optional ±2 % wobble and a bid/ask spread (prices only matter for how much is reserved at confirmation).
+        let p = match rng.as_deref_mut() {
+            Some(r) => p / 1000 * r.range(980, 1020) as u128,
+            None => p,
+        };
+        ok &= w.set_price(i, p - p / 1000, p, p + p / 1000).is_ok();
+    }
+    ok
+}
+
+fn base_world() -> Base {
+    let mut w = World::bootstrap_store();
+    w.bootstrap_oracle();
+    let btc = w.add_token("BTC", 8, 2, true);
+    let sol = w.add_token("SOL", 9, 4, false);
+    let usdc = w.add_token("USDC", 6, 6, false);
+    let wbtc = w.add_token("WBTC", 8, 2, false);
+    let bonk = w.add_token("BONK", 5, 10, false);
+    let market = w.add_market(btc, sol, usdc);
+    let all_tokens = vec![btc, sol, usdc, wbtc, bonk];
+    assert!(refresh_prices(&mut w, &all_tokens, None), "bootstrap: set prices");
+    let (sol_mint, usdc_mint) = (w.tokens[sol].mint, w.tokens[usdc].mint);
+    let lp = w.add_user("lp");
+    token::fund_ata(&mut w.svm, &lp, &sol_mint, 20_000_000_000_000);
+    token::fund_ata(&mut w.svm, &lp, &usdc_mint, 3_000_000_000_000);
+    let d = w
+        .create_deposit(lp, market, 10_000_000_000_000, 1_500_000_000_000, None, None, &[], &[], 0)
+        .unwrap_or_else(|(e, _)| panic!("bootstrap: create_deposit {e:?}"));
+    w.execute_deposit(d, true).unwrap_or_else(|(e, _)| panic!("bootstrap: execute_deposit {e:?}"));
+    w.close_deposit(lp, d).unwrap_or_else(|(e, _)| panic!("bootstrap: close_deposit {e:?}"));
+    let mut users = vec![];
+    for name in ["u0", "u1", "u2", "u3", "u4", "u5"] {
+        let u = w.add_user(name);
+        w.prepare_user(u).unwrap_or_else(|(e, _)| panic!("bootstrap: prepare_user {e:?}"));
+        users.push(u);
+    }
+    // Two position orders so that the market holds claimable (receiver) fees for `claim_fees`.
+    token::fund_ata(&mut w.svm, &users[0], &usdc_mint, 1_000_000_000_000);
+    for (size, collateral) in [(40_000u128, 8_000u64), (25_000, 6_000)] {
+        let mut req = OrderReq::new(OrderKind::MarketIncrease, market, true, false);
+        req.size_delta_value = size * UNIT;
+        req.initial_collateral_delta_amount = collateral * 1_000_000;
+        let o = w.create_order(users[0], &req).unwrap_or_else(|(e, _)| panic!("bootstrap: create_order {e:?}"));
+        w.execute_order(o, true).unwrap_or_else(|(e, _)| panic!("bootstrap: execute_order {e:?}"));
+        w.close_order(users[0], o).unwrap_or_else(|(e, _)| panic!("bootstrap: close_order {e:?}"));
+    }
+    let t = w.bootstrap_treasury(0);
+    Base { w, t, users, market, real: vec![sol, usdc, wbtc, bonk], all_tokens }
+}
+
+struct BankModel {
+    vault: Pubkey,
+    bank: Pubkey,
+    confirmed: bool,
+    /// Recorded balances right after confirmation and the confirmed GT total.
+    b0: BTreeMap<Pubkey, u64>,
+    g0: u64,
+    remaining: u64,
+    /// Requested (unclaimed) GT per owner.
+    pending: BTreeMap<Pubkey, u64>,
+    paid: BTreeMap<Pubkey, u128>,
+    claims_done: u64,
+}
+
+struct Ctx<'a> {
+    seed: u64,
+    shard: u64,
+    hist: u64,
+    log: &'a mut Vec<String>,
+}
+
+impl Ctx<'_> {
+    fn witness(&self, detail: Value) -> Value {
+        let n = self.log.len();
+        let from = n.saturating_sub(300);
+        json!({"seed": self.seed, "shard": self.shard, "history": self.hist, "ops_before": self.log[from..].to_vec(), "ops_omitted": from, "detail": detail})
+    }
+}
+
+fn err_name(e: &TxError) -> String {
+    match e {
+        TxError::Program(p) => match e.custom_code() {
+            Some(c) => format!("custom_{c}"),
+            None => format!("program_{p:?}").chars().take(40).collect(),
+        },
+        TxError::Panic(_) => "panic".into(),
+        TxError::Runtime(r) => format!("runtime_{}", r.chars().take(24).collect::<String>()),
+    }
+}
+
+fn factor_candidate(rng: &mut Rng) -> u128 {
+    match rng.below(12) {
+        0 => 0,
+        1 => UNIT,
+        2 => UNIT + 1,
+        3 => UNIT - 1,
+        4 => 2 * UNIT,
+        5 => u128::MAX,
+        6 => UNIT + rng.log_u128(u128::MAX - UNIT),
+        7 => rng.log_u128(UNIT),
+        8 => UNIT / 100 * rng.range(1, 100) as u128,
+        9 => UNIT + UNIT / 100 * rng.range(1, 400) as u128,
+        _ => rng.range_u128(0, UNIT),
+    }
+}
+
+/// One setter attempt + oracle: a stored factor never exceeds 100 % (10^20).
+fn op_set_factor(base: &Base, w: &mut World, rng: &mut Rng, m: &mut Monitor, cx: &mut Ctx, force: Option<(bool, u128)>) {
+    let (is_gt, factor) = force.unwrap_or_else(|| (rng.bool(), factor_candidate(rng)));
+    let stranger = force.is_none() && rng.chance(1, 10);
+    let authority = if stranger { base.users[0] } else { w.keeper };
+    let Some(before) = w.treasury_config(&base.t) else {
+        m.inconclusive("harness: treasury config unreadable");
+        return;
+    };
+    let name = if is_gt { "set_gt_factor" } else { "set_buyback_factor" };
+    cx.log.push(format!("{name} factor={factor} by={}", if stranger { "stranger" } else { "treasury admin" }));
+    let r = if is_gt { w.treasury_set_gt_factor(&base.t, authority, factor) } else { w.treasury_set_buyback_factor(&base.t, authority, factor) };
+    let Some(after) = w.treasury_config(&base.t) else { return };
+    m.eval();
+    let (old, new) = if is_gt { (before.gt_factor(), after.gt_factor()) } else { (before.buyback_factor(), after.buyback_factor()) };
+    if after.gt_factor() > UNIT || after.buyback_factor() > UNIT {
+        m.violation(
+            &format!("C37:{name}:stored_factor_exceeds_100_percent"),
+            cx.witness(json!({"requested": factor.to_string(), "gt_factor": after.gt_factor().to_string(), "buyback_factor": after.buyback_factor().to_string()})),
+        );
+    }
+    match r {
+        Ok(_) => {
+            if factor > UNIT {
+                m.violation(&format!("C37:{name}:accepted_factor_above_100_percent"), cx.witness(json!({"requested": factor.to_string()})));
+            } else if new != factor {
+                m.violation(&format!("C37:{name}:stored_ne_requested"), cx.witness(json!({"requested": factor.to_string(), "stored": new.to_string()})));
+            }
+            m.count("set_factor_ok");
+            if factor == UNIT {
+                m.count("set_factor_exactly_100_percent_ok");
+            }
+            if stranger {
+                m.count("set_factor_by_stranger_accepted");
+            }
+            m.nontrivial(&[name.as_bytes(), &factor.to_le_bytes()].concat());
+        }
+        Err((e, _)) => {
+            if new != old {
+                m.violation(&format!("C37:{name}:rejected_but_changed"), cx.witness(json!({"requested": factor.to_string()})));
+            }
+            let class = if stranger {
+                "set_factor_rejected_stranger"
+            } else if factor > UNIT {
+                m.nontrivial(&[name.as_bytes(), b"rej", &factor.to_le_bytes()].concat());
+                "set_factor_rejected_above_100_percent"
+            } else if factor == old {
+                "set_factor_rejected_unchanged_value"
+            } else {
+                "set_factor_rejected_unexpected"
+            };
+            m.count(class);
+            m.count(&format!("set_factor_err_{}", err_name(&e)));
+        }
+    }
+}
+
+fn bank_balances(w: &World, bank: &Pubkey) -> Option<Vec<(Pubkey, u64)>> {
+    let b = w.gt_bank(bank)?;
+    Some(b.tokens().map(|t| (t, b.get_balance(&t).unwrap_or(0))).collect())
+}
+
+/// `complete_gt_exchange` by `owner` on `bk` with the per-claim, per-token oracle.
+fn op_claim(base: &Base, w: &mut World, bk: &mut BankModel, owner: Pubkey, rng: &mut Rng, m: &mut Monitor, cx: &mut Ctx) {
+    let t = &base.t;
+    let Some(pre_bal) = bank_balances(w, &bk.bank) else { return };
+    let pre_remaining = w.gt_bank_remaining_confirmed_gt(&bk.bank).unwrap_or(0);
+    let pre_exchange = w.gt_exchange(&bk.vault, &owner).map(|e| e.amount());
+    let pre_owner: Vec<u64> = pre_bal.iter().map(|(mint, _)| token::token_amount(&w.svm, &token::ata(&owner, mint)).unwrap_or(0)).collect();
+    let pre_vault: Vec<u64> = pre_bal.iter().map(|(mint, _)| token::token_amount(&w.svm, &token::ata(&bk.bank, mint)).unwrap_or(0)).collect();
+    let confirmed = w.gt_bank(&bk.bank).map(|b| b.is_confirmed()).unwrap_or(false);
+    cx.log.push(format!(
+        "complete_gt_exchange owner={owner} gt={pre_exchange:?} bank_confirmed={confirmed} remaining_confirmed_gt={pre_remaining} balances={:?}",
+        pre_bal.iter().map(|(k, v)| format!("{k}:{v}")).collect::<Vec<_>>()
+    ));
+    let r = w.complete_gt_exchange(t, owner, bk.vault);
+    m.eval();
+    let _ = rng;
+    match r {
+        Ok(_) => {
+            let g = pre_exchange.unwrap_or(0);
+            let post_bal = bank_balances(w, &bk.bank).unwrap_or_default();
+            let post_remaining = w.gt_bank_remaining_confirmed_gt(&bk.bank).unwrap_or(0);
+            let wit = |why: &str, extra: Value| {
+                json!({"why": why, "owner": owner.to_string(), "gt_amount": g.to_string(), "remaining_confirmed_gt_before": pre_remaining.to_string(),
+                    "remaining_confirmed_gt_after": post_remaining.to_string(),
+                    "balances_before": pre_bal.iter().map(|(k, v)| json!([k.to_string(), v.to_string()])).collect::<Vec<_>>(),
+                    "balances_after": post_bal.iter().map(|(k, v)| json!([k.to_string(), v.to_string()])).collect::<Vec<_>>(),
+                    "confirmed_total_gt": bk.g0.to_string(),
+                    "balances_at_confirmation": bk.b0.iter().map(|(k, v)| json!([k.to_string(), v.to_string()])).collect::<Vec<_>>(),
+                    "extra": extra})
+            };
+            if !confirmed || !bk.confirmed {
+                let got: u128 = pre_bal.iter().enumerate().map(|(i, (mint, _))| (token::token_amount(&w.svm, &token::ata(&owner, mint)).unwrap_or(0) - pre_owner[i]) as u128).sum();
+                m.count("claim_ok_on_unconfirmed_bank");
+                if got > 0 {
+                    m.violation("C37:complete_gt_exchange:paid_from_unconfirmed_bank", cx.witness(wit("bank not confirmed", json!(got.to_string()))));
+                }
+                bk.pending.remove(&owner);
+                return;
+            }
+            m.count("claim_ok");
+            if pre_remaining != bk.remaining {
+                m.violation(
+                    "C37:complete_gt_exchange:remaining_confirmed_gt_ne_confirmed_minus_claimed",
+                    cx.witness(wit("stored remaining differs from confirmed total − Σ claimed", json!(bk.remaining.to_string()))),
+                );
+            }
+            if Some(g) != bk.pending.get(&owner).copied() {
+                m.violation("C37:complete_gt_exchange:exchange_amount_ne_requested", cx.witness(wit("exchange amount differs from Σ requests", json!(bk.pending.get(&owner).map(|x| x.to_string())))));
+            }
+            if g as u128 > pre_remaining as u128 {
+                m.violation("C37:complete_gt_exchange:gt_amount_exceeds_remaining", cx.witness(wit("claim larger than remaining confirmed GT", Value::Null)));
+            }
+            let mut any_paid = false;
+            for (i, (mint, bal)) in pre_bal.iter().enumerate() {
+                let expected: BigInt = if g == 0 || pre_remaining == 0 { BigInt::from(0) } else { BigInt::from(*bal) * BigInt::from(g) / BigInt::from(pre_remaining) };
+                let owner_after = token::token_amount(&w.svm, &token::ata(&owner, mint)).unwrap_or(0);
+                let vault_after = token::token_amount(&w.svm, &token::ata(&bk.bank, mint)).unwrap_or(0);
+                let received = owner_after as i128 - pre_owner[i] as i128;
+                let recorded_after = post_bal.iter().find(|(k, _)| k == mint).map(|(_, v)| *v);
+                if BigInt::from(received) != expected {
+                    m.violation(
+                        "C37:complete_gt_exchange:received_ne_floor_balance_times_gt_over_remaining",
+                        cx.witness(wit("received != ⌊balance·gt/remaining⌋", json!({"token": mint.to_string(), "received": received.to_string(), "expected": expected.to_string()}))),
+                    );
+                }
+                if received > *bal as i128 || received > pre_vault[i] as i128 {
+                    m.violation(
+                        "C37:complete_gt_exchange:paid_more_than_bank_holds",
+                        cx.witness(wit("received > recorded balance or > vault tokens", json!({"token": mint.to_string(), "received": received.to_string(), "vault_tokens": pre_vault[i].to_string()}))),
+                    );
+                }
+                if recorded_after.map(|v| v as i128) != Some(*bal as i128 - received) || vault_after as i128 != pre_vault[i] as i128 - received {
+                    m.violation(
+                        "C37:complete_gt_exchange:bank_record_or_vault_not_reduced_by_payout",
+                        cx.witness(wit("recorded balance / vault tokens not reduced by exactly the payout", json!({"token": mint.to_string(), "received": received.to_string(),
+                            "recorded_after": recorded_after.map(|v| v.to_string()), "vault_before": pre_vault[i].to_string(), "vault_after": vault_after.to_string()}))),
+                    );
+                }
+                // At least the floor share of the balances at confirmation.
+                let b0 = bk.b0.get(mint).copied().unwrap_or(0);
+                let floor_share: BigInt = if bk.g0 == 0 { BigInt::from(0) } else { BigInt::from(b0) * BigInt::from(g) / BigInt::from(bk.g0) };
+                if BigInt::from(received) < floor_share {
+                    m.violation(
+                        "C37:complete_gt_exchange:less_than_floor_share_of_original_balance",
+                        cx.witness(wit("received < ⌊B0·gt/G0⌋", json!({"token": mint.to_string(), "received": received.to_string(), "floor_share": floor_share.to_string()}))),
+                    );
+                }
+                if received > 0 {
+                    any_paid = true;
+                    *bk.paid.entry(*mint).or_insert(0) += received as u128;
+                    if BigInt::from(received) > floor_share {
+                        m.count("claim_token_got_more_than_floor_share");
+                    }
+                }
+                if bk.paid.get(mint).copied().unwrap_or(0) > b0 as u128 {
+                    m.violation(
+                        "C37:complete_gt_exchange:total_paid_exceeds_balance_at_confirmation",
+                        cx.witness(wit("Σ payouts > balance at confirmation", json!({"token": mint.to_string(), "paid": bk.paid.get(mint).map(|x| x.to_string())}))),
+                    );
+                }
+                m.count("claim_token_checked");
+            }
+            if post_remaining as u128 != pre_remaining as u128 - (g as u128).min(pre_remaining as u128) {
+                m.violation("C37:complete_gt_exchange:remaining_not_reduced_by_gt_amount", cx.witness(wit("remaining' != remaining − gt", Value::Null)));
+            }
+            bk.remaining = bk.remaining.saturating_sub(g);
+            bk.pending.remove(&owner);
+            bk.claims_done += 1;
+            if w.gt_exchange(&bk.vault, &owner).is_some() {
+                m.count("exchange_account_still_open_after_claim");
+            }
+            if g > 0 && post_remaining == 0 {
+                m.count("last_claim");
+                if post_bal.iter().any(|(_, v)| *v != 0) {
+                    m.violation("C37:complete_gt_exchange:last_claim_does_not_drain_bank", cx.witness(wit("remaining confirmed GT is 0 but balances are left", Value::Null)));
+                } else if bk.b0.values().any(|v| *v > 0) {
+                    m.count("last_claim_drained_nonempty_bank");
+                }
+                for (mint, b0) in &bk.b0 {
+                    if bk.paid.get(mint).copied().unwrap_or(0) != *b0 as u128 {
+                        m.violation(
+                            "C37:complete_gt_exchange:total_paid_ne_balance_at_confirmation_after_last_claim",
+                            cx.witness(wit("Σ payouts != balance at confirmation", json!({"token": mint.to_string()}))),
+                        );
+                    }
+                }
+            }
+            if g == 0 {
+                m.count("claim_zero_gt_ok");
+            }
+            if any_paid {
+                m.count("claim_paid_something");
+                let mut sig = vec![];
+                sig.extend_from_slice(&g.to_le_bytes());
+                sig.extend_from_slice(&pre_remaining.to_le_bytes());
+                for (_, v) in &pre_bal {
+                    sig.extend_from_slice(&v.to_le_bytes());
+                }
+                m.nontrivial(&sig);
+            }
+            if m.wants_sample() && any_paid && m.counter("sampled_claims") < 6 && pre_bal.len() >= 2 {
+                m.count("sampled_claims");
+                m.sample(wit("sample claim", json!({"shard": cx.shard, "history": cx.hist})));
+            }
+        }
+        Err((e, _)) => {
+            let class = if !confirmed {
+                "claim_rejected_bank_not_confirmed"
+            } else if pre_exchange.is_none() {
+                "claim_rejected_no_exchange"
+            } else {
+                "claim_rejected_unexpected"
+            };
+            m.count(class);
+            m.count(&format!("claim_err_{}", err_name(&e)));
+            if e.is_panic() {
+                m.count("panics");
+            }
+        }
+    }
+}
+
+/// A claim of `victim`'s exchange signed by somebody else (never the subject of an oracle; counted).
+fn op_foreign_claim(base: &Base, w: &mut World, bk: &BankModel, victim: Pubkey, thief: Pubkey, m: &mut Monitor, cx: &mut Ctx) -> bool {
+    let Some(mut ix) = w.complete_gt_exchange_ix(&base.t, victim, bk.vault) else { return false };
+    let n = w.gt_bank(&bk.bank).map(|b| b.num_tokens()).unwrap_or(0);
+    ix.accounts[0].pubkey = thief;
+    let len = ix.accounts.len();
+    let mints: Vec<Pubkey> = ix.accounts[len - 3 * n..len - 2 * n].iter().map(|a| a.pubkey).collect();
+    let mut ixs = vec![];
+    for (i, mint) in mints.iter().enumerate() {
+        ix.accounts[len - n + i].pubkey = token::ata(&thief, mint);
+        ixs.push(w.prepare_ata_ix(thief, thief, *mint));
+    }
+    ixs.push(ix);
+    cx.log.push(format!("complete_gt_exchange of owner={victim} signed by {thief}"));
+    match w.send(&ixs, &[thief]) {
+        Ok(_) => {
+            m.count("foreign_claim_accepted");
+            true
+        }
+        Err(_) => {
+            m.count("foreign_claim_rejected");
+            false
+        }
+    }
+}
+
+fn gen_gt_params(rng: &mut Rng) -> GtParams {
+    let decimals = rng.below(10) as u8;
+    // Per-base-unit GT cost; wide range so that the buyback price is capped sometimes by the cost,
+    // sometimes by the bank value / buyback factor.
+    let cost = match rng.below(4) {
+        0 => 10u128.pow(rng.range(24, 30) as u32),
+        _ => 10u128.pow(rng.range(8, 22) as u32) * rng.range(1, 9) as u128,
+    };
+    GtParams {
+        decimals,
+        initial_minting_cost: cost,
+        grow_factor: UNIT + UNIT / 100,
+        grow_step: 1u64 << rng.range(44, 60),
+        ranks: vec![1_000, 1_000_000, 1_000_000_000],
+    }
+}
+
+fn history(base: &Base, rng: &mut Rng, m: &mut Monitor, seed: u64, shard: u64, hist: u64) {
+    let mut w = base.w.clone();
+    let t = base.t.clone();
+    let mut log: Vec<String> = vec![];
+    let mut cx = Ctx { seed, shard, hist, log: &mut log };
+    let keeper = w.keeper;
+    w.svm.warp(rng.range_i64(0, 100_000));
+    let p = gen_gt_params(rng);
+    cx.log.push(format!("initialize_gt {p:?}"));
+    if let Err((e, _)) = w.initialize_gt(&p) {
+        m.inconclusive(&format!("harness: initialize_gt failed: {e:?}"));
+        return;
+    }
+    m.count("histories");
+    // Treasury tokens.
+    let mut pool = base.real.clone();
+    rng.shuffle(&mut pool);
+    let n_tok = rng.range(1, pool.len() as u64) as usize;
+    let treasury_tokens: Vec<usize> = pool[..n_tok].to_vec();
+    for &i in &treasury_tokens {
+        let mint = w.tokens[i].mint;
+        cx.log.push(format!("insert_token_to_treasury_vault {} ({mint})", w.tokens[i].name));
+        if w.treasury_insert_token(&t, mint).is_err() {
+            m.inconclusive("harness: insert_token_to_treasury_vault failed");
+            return;
+        }
+        let _ = w.treasury_toggle_token_flag(&t, mint, "allow_deposit", true);
+        let _ = w.treasury_toggle_token_flag(&t, mint, "allow_withdrawal", true);
+        m.count("treasury_token_inserted");
+    }
+    m.max("max_treasury_tokens", n_tok as u64);
+    // Factor setters: hostile values first, then a usable configuration.
+    for _ in 0..rng.range(3, 8) {
+        op_set_factor(base, &mut w, rng, m, &mut cx, None);
+    }
+    let gt_factor = match rng.below(6) {
+        0 => UNIT,
+        1 => rng.log_u128(UNIT),
+        _ => UNIT / 100 * rng.range(5, 100) as u128,
+    };
+    op_set_factor(base, &mut w, rng, m, &mut cx, Some((true, gt_factor)));
+    let bb_factor = match rng.below(6) {
+        0 => UNIT,
+        1 => rng.log_u128(UNIT),
+        2 => UNIT / 1000 * rng.range(1, 50) as u128,
+        _ => UNIT / 100 * rng.range(2, 100) as u128,
+    };
+    op_set_factor(base, &mut w, rng, m, &mut cx, Some((false, bb_factor)));
+
+    let mut banks: Vec<BankModel> = vec![];
+    let rounds = rng.range(1, 3);
+    for round in 0..rounds {
+        // --- GT to users ---
+        for u in &base.users {
+            if rng.chance(4, 5) {
+                let amount = rng.log_u64(1_000_000_000_000).max(1);
+                cx.log.push(format!("mint_gt_reward owner={u} amount={amount}"));
+                if w.mint_gt_reward(keeper, *u, amount).is_err() {
+                    m.count("mint_gt_reward_failed");
+                }
+            }
+        }
+        // --- vault + bank for the current window ---
+        let window = w.gt_state().map(|g| g.exchange_time_window()).unwrap_or(86_400);
+        let index = w.svm.clock.unix_timestamp / window as i64;
+        cx.log.push(format!("prepare_gt_exchange_vault index={index}; prepare_gt_bank"));
+        let Ok(vault) = w.prepare_gt_exchange_vault(keeper, index) else {
+            m.inconclusive("harness: prepare_gt_exchange_vault failed");
+            return;
+        };
+        let bank = match w.prepare_gt_bank(&t, vault) {
+            Ok(b) => b,
+            Err((e, _)) => {
+                m.inconclusive(&format!("harness: prepare_gt_bank failed: {e:?}"));
+                return;
+            }
+        };
+        m.count("gt_bank_prepared");
+        let mut bk = BankModel { vault, bank, confirmed: false, b0: BTreeMap::new(), g0: 0, remaining: 0, pending: BTreeMap::new(), paid: BTreeMap::new(), claims_done: 0 };
+        // --- fund the receiver and deposit (splits by gt_factor into bank / treasury vault) ---
+        for &i in &treasury_tokens {
+            if !rng.chance(5, 6) {
+                continue;
+            }
+            let mint = w.tokens[i].mint;
+            for _ in 0..rng.range(1, 2) {
+                if w.tokens[i].name == "USDC" && rng.chance(1, 3) {
+                    cx.log.push("claim_fees USDC".into());
+                    m.count(if w.treasury_claim_fees(&t, base.market, mint, 0).is_ok() { "claim_fees_ok" } else { "claim_fees_failed" });
+                }
+                let amount = match rng.below(8) {
+                    0 => 0,
+                    1 => 1,
+                    2 => rng.range(1, 1_000),
+                    _ => rng.log_u64(5_000_000_000_000).max(1),
+                };
+                token::fund_ata(&mut w.svm, &t.receiver, &mint, amount);
+                let receiver_amount = token::token_amount(&w.svm, &token::ata(&t.receiver, &mint)).unwrap_or(0);
+                let before = w.gt_bank(&bank).and_then(|b| b.get_balance(&mint)).unwrap_or(0);
+                cx.log.push(format!("deposit_to_treasury_vault {} receiver_vault={receiver_amount}", w.tokens[i].name));
+                match w.deposit_to_treasury_vault(&t, vault, mint) {
+                    Ok(_) => {
+                        m.count("deposit_to_treasury_vault_ok");
+                        let after = w.gt_bank(&bank).and_then(|b| b.get_balance(&mint)).unwrap_or(0);
+                        let cfg = w.treasury_config(&t).map(|c| c.gt_factor()).unwrap_or(0);
+                        let expect = BigInt::from(receiver_amount) * BigInt::from(cfg) / BigInt::from(UNIT);
+                        if BigInt::from(after) - BigInt::from(before) == expect {
+                            m.count("deposit_bank_share_eq_floor_amount_times_gt_factor");
+                        } else {
+                            m.count("deposit_bank_share_differs_from_gt_factor_share");
+                        }
+                    }
+                    Err((e, _)) => {
+                        m.count("deposit_to_treasury_vault_failed");
+                        m.count(&format!("deposit_err_{}", err_name(&e)));
+                    }
+                }
+            }
+        }
+        // Occasionally drop a token from the treasury list after it went into the bank (bank ⊄ treasury tokens).
+        if treasury_tokens.len() > 1 && rng.chance(1, 10) {
+            let mint = w.tokens[treasury_tokens[0]].mint;
+            cx.log.push(format!("remove_token_from_treasury_vault {mint}"));
+            if w.treasury_remove_token(&t, mint).is_ok() {
+                m.count("treasury_token_removed_after_deposit");
+            }
+        }
+        // --- exchange requests ---
+        let mut order: Vec<Pubkey> = base.users.clone();
+        rng.shuffle(&mut order);
+        let n_req = rng.range(0, order.len() as u64 + 2);
+        for k in 0..n_req {
+            let owner = order[(k as usize) % order.len()];
+            let bal = w.user_header(&owner).map(|u| u.gt().amount()).unwrap_or(0);
+            let amount = match rng.below(10) {
+                0 => 0,
+                1 => bal,
+                2 => 1.min(bal),
+                _ => rng.range(0, bal),
+            };
+            cx.log.push(format!("request_gt_exchange owner={owner} amount={amount} balance={bal}"));
+            match w.request_gt_exchange(owner, vault, amount) {
+                Ok(_) => {
+                    *bk.pending.entry(owner).or_insert(0) += amount;
+                    m.count("request_gt_exchange_ok");
+                }
+                Err(_) => m.count("request_gt_exchange_failed"),
+            }
+        }
+        // A claim before the confirmation must not pay anything.
+        if !bk.pending.is_empty() && rng.chance(1, 4) {
+            let owner = *bk.pending.keys().next().unwrap();
+            op_claim(base, &mut w, &mut bk, owner, rng, m, &mut cx);
+            if !bk.pending.contains_key(&owner) {
+                // accepted on an unconfirmed bank: the exchange is gone; nothing further to model for it
+                m.count("history_continues_after_early_claim_accepted");
+            }
+        }
+        // Claims of older banks may be interleaved here.
+        for old in banks.iter_mut() {
+            let owners: Vec<Pubkey> = old.pending.keys().copied().collect();
+            for o in owners {
+                if rng.chance(1, 3) {
+                    op_claim(base, &mut w, old, o, rng, m, &mut cx);
+                }
+            }
+        }
+        // --- next window, fresh prices, optional unrecorded donation, confirmation ---
+        let to_next = window as i64 - w.svm.clock.unix_timestamp % window as i64;
+        let secs = to_next + rng.range_i64(0, 3 * window as i64 / 2);
+        w.svm.warp(secs);
+        cx.log.push(format!("warp +{secs}s"));
+        if !refresh_prices(&mut w, &base.all_tokens, Some(&mut *rng)) {
+            m.inconclusive("harness: price refresh failed");
+            return;
+        }
+        if rng.chance(1, 4) {
+            if let Some(bals) = bank_balances(&w, &bank) {
+                if let Some((mint, _)) = bals.first() {
+                    let extra = rng.log_u64(1_000_000_000).max(1);
+                    token::fund_ata(&mut w.svm, &bank, mint, extra);
+                    cx.log.push(format!("unrecorded transfer of {extra} into the bank vault of {mint}"));
+                    m.count("unrecorded_donation_to_bank_vault");
+                }
+            }
+        }
+        let pre = bank_balances(&w, &bank).unwrap_or_default();
+        let vault_amount = w.gt_vault(&vault).map(|v| v.amount()).unwrap_or(0);
+        cx.log.push(format!("confirm_gt_buyback vault_gt={vault_amount} balances={:?}", pre.iter().map(|(k, v)| format!("{k}:{v}")).collect::<Vec<_>>()));
+        match w.confirm_gt_buyback(&t, vault) {
+            Ok(_) => {
+                m.count("confirm_gt_buyback_ok");
+                m.eval();
+                let post = bank_balances(&w, &bank).unwrap_or_default();
+                let remaining = w.gt_bank_remaining_confirmed_gt(&bank).unwrap_or(0);
+                let requested: u128 = bk.pending.values().map(|v| *v as u128).sum();
+                if remaining != vault_amount || remaining as u128 != requested {
+                    m.violation(
+                        "C37:confirm_gt_buyback:confirmed_gt_ne_requested_total",
+                        cx.witness(json!({"remaining_confirmed_gt": remaining.to_string(), "vault_amount": vault_amount.to_string(), "sum_of_requests": requested.to_string()})),
+                    );
+                }
+                let mut grew = false;
+                for ((k, a), (_, b)) in post.iter().zip(pre.iter()) {
+                    bk.b0.insert(*k, *a);
+                    grew |= a > b;
+                }
+                if grew || post.len() != pre.len() {
+                    m.violation(
+                        "C37:confirm_gt_buyback:reserved_more_than_bank_held",
+                        cx.witness(json!({"before": pre.iter().map(|(k, v)| format!("{k}:{v}")).collect::<Vec<_>>(), "after": post.iter().map(|(k, v)| format!("{k}:{v}")).collect::<Vec<_>>()})),
+                    );
+                }
+                let had = pre.iter().any(|(_, v)| *v > 0);
+                let has = post.iter().any(|(_, v)| *v > 0);
+                if vault_amount == 0 {
+                    m.count("confirm_with_no_gt_requested");
+                } else if had && !has {
+                    m.count("confirm_reserved_nothing");
+                } else if post == pre && had {
+                    m.count("confirm_reserved_everything");
+                } else if had {
+                    m.count("confirm_reserved_part");
+                }
+                m.max("max_bank_tokens", post.len() as u64);
+                if post.iter().filter(|(_, v)| *v > 0).count() >= 2 {
+                    m.count("confirmed_bank_with_two_or_more_funded_tokens");
+                }
+                bk.confirmed = true;
+                bk.g0 = remaining;
+                bk.remaining = remaining;
+            }
+            Err((e, _)) => {
+                m.count("confirm_gt_buyback_failed");
+                m.count(&format!("confirm_buyback_err_{}", err_name(&e)));
+            }
+        }
+        // --- claims in random order, interleaved with syncs, donations, foreign / repeated claims ---
+        if bk.confirmed {
+            let mut owners: Vec<Pubkey> = bk.pending.keys().copied().collect();
+            rng.shuffle(&mut owners);
+            let defer = if round + 1 < rounds && rng.chance(1, 3) { rng.range(0, owners.len() as u64) as usize } else { 0 };
+            let now: Vec<Pubkey> = owners[..owners.len() - defer].to_vec();
+            for o in now {
+                if rng.chance(1, 5) {
+                    if let Some((mint, _)) = bank_balances(&w, &bank).and_then(|b| b.first().copied()) {
+                        cx.log.push(format!("sync_gt_bank_v2 {mint}"));
+                        m.count(if w.sync_gt_bank(&t, vault, mint).is_ok() { "sync_gt_bank_ok" } else { "sync_gt_bank_rejected" });
+                    }
+                }
+                if rng.chance(1, 8) {
+                    let thief = *rng.pick(&base.users);
+                    if thief != o && op_foreign_claim(base, &mut w, &bk, o, thief, m, &mut cx) {
+                        m.count("history_abandoned_foreign_claim_accepted");
+                        return;
+                    }
+                }
+                op_claim(base, &mut w, &mut bk, o, rng, m, &mut cx);
+                if rng.chance(1, 8) {
+                    // a second claim of the same exchange must fail (the exchange account is closed)
+                    op_claim(base, &mut w, &mut bk, o, rng, m, &mut cx);
+                }
+            }
+            if bk.pending.is_empty() && bk.g0 > 0 {
+                m.count("bank_fully_claimed");
+                // After syncing every token the SPL vaults hold exactly the recorded (zero) balances.
+                if let Some(bals) = bank_balances(&w, &bank) {
+                    let mut all_zero = true;
+                    for (mint, _) in &bals {
+                        let _ = w.sync_gt_bank(&t, vault, *mint);
+                        all_zero &= token::token_amount(&w.svm, &token::ata(&bank, mint)).unwrap_or(0) == 0;
+                    }
+                    if all_zero {
+                        m.count("bank_vaults_empty_after_last_claim_and_sync");
+                    }
+                }
+            }
+        }
+        banks.push(bk);
+    }
+    // Deferred claims of all banks, random order.
+    let mut rest: Vec<(usize, Pubkey)> = vec![];
+    for (i, b) in banks.iter().enumerate() {
+        if b.confirmed {
+            rest.extend(b.pending.keys().map(|o| (i, *o)));
+        }
+    }
+    rng.shuffle(&mut rest);
+    for (i, o) in rest {
+        m.count("deferred_claim");
+        op_claim(base, &mut w, &mut banks[i], o, rng, m, &mut cx);
+    }
+    for b in &banks {
+        m.max("max_claims_on_one_bank", b.claims_done);
+    }
+    // Factor setters once more at the end (state after a full flow).
+    for _ in 0..rng.range(1, 3) {
+        op_set_factor(base, &mut w, rng, m, &mut cx, None);
+    }
+}
+
+pub fn run(args: &Args) -> Option<i32> {
+    let quiet = hostsvm::QuietStdout::new();
+    let mut mon = Monitor::new(
+        args,
+        "random full treasury flows in hostsvm (real gmsol-treasury + gmsol-store entrypoints): factor setters with hostile values, \
+         1–4 treasury tokens, 1–3 exchange windows each with its GT bank funded through deposit_to_treasury_vault, up to 6 users requesting \
+         random GT amounts, confirm_gt_buyback, complete_gt_exchange in random order (interleaved with syncs, unrecorded transfers, repeated \
+         and foreign claims). Every successful claim is checked per token against ⌊balance·gt/remaining⌋ (BigInt) using the pre-state \
+         read from the accounts. Non-trivial = a claim that paid a non-zero amount, or a setter call that stored / rejected a factor; \
+         distinct = hash of (gt amount, remaining, all recorded balances) resp. (setter, factor).",
+    );
+    mon.assume("only legacy SPL-token mints are used as treasury tokens (the world builder creates no Token-2022 mints)");
+    mon.assume("bank balances come from deposit_to_treasury_vault after the receiver vault was funded by state injection (fund_ata) or by the real claim_fees");
+    let shards = args.scale(64, 512);
+    let hist_per_shard = args.scale(10, 24);
+    let seed = args.seed;
+    run_shards(&mut mon, args.threads, shards, |shard, m| {
+        let base = base_world();
+        for h in 0..hist_per_shard {
+            let mut rng = Rng::derive(seed, shard, h);
+            history(&base, &mut rng, m, seed, shard, h);
+        }
+    });
+    let k = args.scale(1, 8);
+    mon.require("histories", 300 * k);
+    mon.require("confirm_gt_buyback_ok", 300 * k);
+    mon.require("claim_paid_something", 500 * k);
+    mon.require("claim_token_checked", 2_000 * k);
+    mon.require("last_claim_drained_nonempty_bank", 100 * k);
+    mon.require("confirmed_bank_with_two_or_more_funded_tokens", 100 * k);
+    mon.require("confirm_reserved_part", 50 * k);
+    mon.require("set_factor_rejected_above_100_percent", 300 * k);
+    mon.require("set_factor_ok", 300 * k);
+    mon.require("deferred_claim", 20 * k);
+    mon.set_extra(
+        "not_covered",
+        json!(["Token-2022 treasury tokens (token_2022_program branch of complete_gt_exchange)", "create_swap_v2 / cancel_swap (treasury swaps; not part of C37)"]),
+    );
+    drop(quiet);
+    Some(mon.finish())
 }
